@@ -31,7 +31,10 @@ RULE = (
 EXPLANATION = (
     "Lean theorems C14_* (decode (encode x) = x for layer / polygon / device / mesh records and for solver options "
     "with None-valued fields; restored mesh = recomputed mesh as a function of the stored triangulation; parameter "
-    "round trip from C16) over an abstract HDF5 tree; real objects are round-tripped and compared field by field."
+    "round trip from C16) over an abstract HDF5 tree; real objects are round-tripped and compared field by field. "
+    "C14Mem: a solution saved after its file is gone (model memSave: one frame group whose running state is the whole "
+    "record) loads back with all per-step records whichever recorded step was selected; the file actually written is "
+    "compared with that shape."
 )
 ASSUMPTIONS = ["h5py and cloudpickle byte formats are trusted; arrays compared bit for bit"]
 
@@ -371,6 +374,12 @@ def solution_roundtrips(ctx, stop_first=False):
         prev_copy = p2
         # the solution outlives its file: delete the HDF5 file, save what is in memory to a new file, load it back
         try:
+            # ... every other time with an EARLIER recorded step selected: the per-step records (dynamics) are those of
+            # the whole run whichever frame is being shown
+            earlier = (oi + di) % 2 == 1 and hi > lo
+            if earlier:
+                sol.solve_step = lo + (hi - lo) // 2
+                ctx.count("in_memory_saves_with_an_earlier_step_selected")
             keep_step = sol.solve_step
             td, dyn = sol.tdgl_data, sol.dynamics
             p3 = path.replace(".h5", "_mem.h5")
@@ -379,10 +388,16 @@ def solution_roundtrips(ctx, stop_first=False):
             sol.delete_hdf5()
             sol.to_hdf5(p3)
             mem = tdgl.Solution.from_hdf5(p3)
+            # the file written has the shape of the Lean model `memSave` (Tdgl/SolutionSave.lean): ONE frame group, that
+            # of the selected step, whose running state is the whole per-step record
+            fr3 = runs.parse_h5(p3)[0]
+            ctx.corr(len(fr3) == 1 and fr3[0]["index"] == int(keep_step) and fr3[0]["running"] is not None and arr_eq(fr3[0]["running"]["dt"], dyn.dt),
+                     "file written by an in-memory save vs memSave (Lean): one frame, running state = all records", dict(tag, frames=[f_["index"] for f_ in fr3], selected=int(keep_step)))
             bad3 = [f.name for f in dataclasses.fields(td) if f.name not in ("state",) and not (getattr(td, f.name) == getattr(mem.tdgl_data, f.name)
                     if np.isscalar(getattr(td, f.name)) else arr_eq(getattr(td, f.name), getattr(mem.tdgl_data, f.name)))]
             if bad3 or not arr_eq(dyn.dt, mem.dynamics.dt) or not (mem.dynamics == dyn) or mem.options != sol.options:
-                fail("solution-in-memory-save", f"a solution saved from memory (its file deleted) does not load back unchanged: {bad3[:4]}")
+                fail("solution-in-memory-save", f"a solution saved from memory (its file deleted, step {keep_step} of {lo}..{hi} selected) does not load back unchanged: fields {bad3[:4]}, "
+                     f"dynamics {len(np.asarray(mem.dynamics.dt))} of {len(np.asarray(dyn.dt))} steps", selected_step=int(keep_step))
         except Exception as e:  # noqa
             fail("solution-in-memory-save", f"saving a solution whose file was deleted / loading it back raised {type(e).__name__}: {str(e)[:100]}")
         if len(ctx.samples) < 4:
